@@ -203,7 +203,7 @@ def main():
             "enable": "RUSTFLAGS='--cfg meshless_voro_verif' cargo build (the harness crate in /verif/harness depends on /repo by path)",
             "baseline_off_cmd": "cd /repo && cargo test --workspace --no-fail-fast --offline",
             "source_commits": ["2ec7ecd", "2f872ce", "439f283"],
-            "fix_commits": ["09dfeb6", "acc62b6", "e7978d5", "ab48a7b", "26b237e", "cd67cc4"],
+            "fix_commits": ["09dfeb6", "acc62b6", "e7978d5", "ab48a7b", "26b237e", "cd67cc4", "43a72c0"],
             "add_only": True,
         },
         "engines": [{
